@@ -6,4 +6,7 @@ replace github.com/CloudyKit/jet/v6 => /repo
 
 require github.com/CloudyKit/jet/v6 v6.0.0-00010101000000-000000000000
 
-require github.com/CloudyKit/fastprinter v0.0.0-20200109182630-33d98a066a53 // indirect
+require (
+	github.com/CloudyKit/fastprinter v0.0.0-20200109182630-33d98a066a53 // indirect
+	github.com/anishathalye/porcupine v1.3.0
+)
